@@ -656,7 +656,10 @@ impl<T: AsRef<[u8]>> Frame<T> {
         } else {
             0
         };
-        &b[5..][..length]
+        // The key identifier follows the security control field and the
+        // frame counter, which is absent when suppressed.
+        let start = if self.frame_counter_suppressed() { 1 } else { 5 };
+        &b[start..][..length]
     }
 
     /// Return the Key Source field.
@@ -686,6 +689,11 @@ impl<T: AsRef<[u8]>> Frame<T> {
 
         let data = &self.buffer.as_ref();
         let len = data.len();
+
+        // A frame too short to hold the MIC after its headers does not have one.
+        if len < self.payload_start() + mic_len {
+            return None;
+        }
 
         Some(&data[len - mic_len..])
     }
